@@ -198,3 +198,20 @@ PROPERTIES = {
 
 # Per-property text for MANIFEST.json (level text, trusted-base note, technique).
 MANIFEST_TEXT = {}
+
+PROPERTIES["C20"] = {
+    "level": "exploration",
+    "rule": "rapid draws (protocol id, counterparty string) pairs: every enum value and out-of-range numbers x a grammar of strings from the "
+            "region where canonicity can fail (digits with signs, leading zeros, 2^32 and 2^63 boundaries, spaces, non-ASCII digits, hex/"
+            "underscore/exponent forms, channel-N forms, strings containing ':', length 31/32/33, empty, NUL) plus a near-collision partner "
+            "(separator shifted). Unit oracle: accepted => ParseCrossChainID(ID()) == pair, no two accepted pairs share a textual form, and for "
+            "CCTP/Hyperlane the string equals FormatUint(v,10) for some v < 2^32 and equals the CounterpartyID() of the attributes for v; "
+            "every canonical decimal is accepted; genesis validation agrees. Paths oracle (PROD): a non-canonical string is refused by "
+            "genesis validation, PauseCrossChains and IsCrossChainPaused; after a successful pause of a canonical id a valid probe transfer to "
+            "the domain it denotes is refused. Non-trivial = an accepted CCTP/Hyperlane string or a coupled probe; distinct by (protocol, string).",
+    "assumptions": COMMON_ASSUMPTIONS,
+    "tests": [
+        {"test": "TestC20Unit", "quick": 50000, "thorough": 4000000},
+        {"test": "TestC20Paths", "quick": 1500, "thorough": 100000},
+    ],
+}
